@@ -648,7 +648,9 @@ func runRnsHistory(rc *RunCtx) {
 	// 1..3 targeted sequences, interleaved with PRNG steps
 	nseq := 1 + rc.Intn(3)
 	for i := 0; i < nseq; i++ {
-		switch rc.Intn(9) {
+		switch rc.Intn(10) {
+		case 9:
+			g.seqRecordPath()
 		case 8:
 			g.seqInitCollision()
 		case 0, 1:
@@ -724,5 +726,56 @@ func (g *rnsGen) seqInitCollision() {
 		}
 		i := g.otherThan(g.ownerIdx(n))
 		return g.do(i, &rnstypes.MsgInit{Creator: g.acc(i)})
+	})
+}
+
+// seqRecordPath: an account that does not own the live name v.tld owns another name m.tld, gives it a record labelled
+// "v" that points at itself, and then sends owner-only messages that name the record path "v.m.tld". A record is not a
+// name: none of these may touch v.tld (or anything else).
+func (g *rnsGen) seqRecordPath() {
+	var victim, m string
+	var att int
+	g.enqueue(func() bool {
+		v, ok := g.ensureLive()
+		if !ok {
+			return false
+		}
+		victim = v
+		vl, tld := rnsSplit(victim)
+		att = g.otherThan(g.ownerIdx(victim))
+		m = "m" + rnsLabel(g.rc, 3+g.rc.Intn(4)) + "." + tld
+		g.pool = append(g.pool, m)
+		if !g.do(att, &rnstypes.MsgRegisterName{Creator: g.acc(att), Name: m, Years: 1, Data: "{}"}) {
+			return false
+		}
+		return g.do(att, &rnstypes.MsgAddRecord{Creator: g.acc(att), Name: m, Record: vl, Value: g.acc(att), Data: `{"rec":1}`})
+	}, func() bool {
+		if victim == "" {
+			return true
+		}
+		vl, tld := rnsSplit(victim)
+		ml, _ := rnsSplit(m)
+		path := vl + "." + ml + "." + tld
+		me := g.acc(att)
+		g.rc.Count("record_path_attacks", 1)
+		for _, k := range g.rc.Rng.Perm(5)[:2+g.rc.Intn(3)] {
+			var msg sdk.Msg
+			switch k {
+			case 0:
+				msg = &rnstypes.MsgTransfer{Creator: me, Name: path, Receiver: me}
+			case 1:
+				msg = &rnstypes.MsgUpdate{Creator: me, Name: path, Data: `{"taken":true}`}
+			case 2:
+				msg = &rnstypes.MsgList{Creator: me, Name: path, Price: sdk.NewInt64Coin(rnsDenomA, 5)}
+			case 3:
+				msg = &rnstypes.MsgAddRecord{Creator: me, Name: path, Record: "x", Value: me, Data: "{}"}
+			default:
+				msg = &rnstypes.MsgAcceptBid{Creator: me, Name: path, From: g.acc(g.bidderOn(victim))}
+			}
+			if !g.do(att, msg) {
+				return false
+			}
+		}
+		return true
 	})
 }
